@@ -6,7 +6,7 @@ Parameters of the model (stated contracts): `chunks` is `textwrap.TextWrapper().
 whose only assumed property is `chunks.flatten = munge t` (and no empty chunk); the text `s` is what
 `ircutils.safeArgument` returned; `irc.isChannel` enters through three booleans of `Env`.
 -/
-import LimnoriaModel.C12.LemmasFlags
+import LimnoriaModel.C12.LemmasColour
 namespace C12
 open Py
 
@@ -443,6 +443,58 @@ theorem visible_text_counterexample :
   simp only at hv
   rw [h2] at hv
   revert hv
+  decide +kernel
+
+
+/-! ## text with colour codes whose wrapped lines start cleanly -/
+
+theorem colour_ok : Gen.colorLimit ≤ 16 := by decide
+
+/-
+For text WITH colour codes the recomputed contexts are those of the text (up to a lone background
+gaining the foreground 00) provided no line after the first begins with a digit or a comma — which
+excludes exactly the two recorded findings (a cut inside `\x03NN`, a re-opened code running into the
+text).  Then re-opening never costs more than the reserved overhead.
+-/
+theorem coherent_clean (chunks : List Str) (s : Str) (hcontract : chunks.flatten = munge s)
+    (length : Nat) (h4 : (parse s).maxSize + 4 ≤ length) (hclean : cleanWrap chunks s length = true) :
+    coherent chunks s length = true := by
+  obtain ⟨raw, hraw, _, hflat, _⟩ := ircWrap_struct chunks s length h4
+  unfold cleanWrap at hclean
+  unfold coherent
+  rw [hraw] at hclean ⊢
+  apply coherentFrom_clean_all consts_ok.1 consts_ok.2.1 colour_ok _ raw hclean
+  rw [hflat, hcontract, parse_munge_all]
+  exact Nat.le_refl _
+
+/-- every line of `ircutils.wrap` fits the requested length, for any text (colours included) whose
+wrapped lines start cleanly -/
+theorem ircWrap_fits_clean (chunks : List Str) (s : Str) (hcontract : chunks.flatten = munge s)
+    (length : Nat) (h4 : (parse s).maxSize + 4 ≤ length) (hclean : cleanWrap chunks s length = true) :
+    ∃ lines, ircWrap chunks s length = .ok lines ∧ ∀ l ∈ lines, blen l ≤ length :=
+  ircWrap_fits_partial chunks s length h4 (coherent_clean chunks s hcontract length h4 hclean)
+
+/-- every message of a chunked reply fits in 512 bytes, for any text (colours included) whose wrapped
+lines start cleanly -/
+theorem fits_512_clean (e : Env) (cfg : Cfg) (chunks : List Str) (s : Str) (allowed : Nat) (s1 : Str)
+    (hauto : cfg.moresLength = 0)
+    (hprep : prepare e cfg s = some (allowed, s1, false))
+    (hE : blen Gen.emptyReply ≤ allowed)
+    (hcontract : chunks.flatten = munge s1) (hne : ∀ c ∈ chunks, c ≠ [])
+    (h4 : suffixReserve (blen s1) + (parse s1).maxSize + 4 ≤ allowed)
+    (hclean : cleanWrap chunks s1 (allowed - suffixReserve (blen s1)) = true) :
+    ∃ now stored, reply e cfg chunks s = .sent now stored ∧
+      ∀ o ∈ now ++ stored.getD [], blen (wire e o) ≤ 512 :=
+  fits_512_partial e cfg chunks s allowed s1 hauto hprep hE hcontract hne h4
+    (coherent_clean chunks s1 hcontract _ (by omega) hclean)
+
+def clText : Str := [Char.ofNat 3, '4'] ++ "red ".toList ++ [Char.ofNat 3, '0', ',', '1'] ++ "white on black".toList ++
+  [Char.ofNat 15] ++ " plain".toList
+def clChunks : List Str := [[Char.ofNat 3, '4'] ++ "red".toList, " ".toList,
+  [Char.ofNat 3, '0', ',', '1'] ++ "white".toList, " ".toList, "on".toList, " ".toList,
+  "black".toList ++ [Char.ofNat 15], " ".toList, "plain".toList]
+
+example : clChunks.flatten = munge clText ∧ (parse clText).maxSize + 4 ≤ 20 ∧ cleanWrap clChunks clText 20 = true := by
   decide +kernel
 
 
